@@ -12,6 +12,9 @@ CHECKS = {
  'C03': dict(engine='vsched-e2', technique=E2,
    text="All arrival/tick histories up to the stated depth over a 17-symbol alphabet built from the receive log's branch conditions, for every (window, skipLastN, maxNacks, start) configuration listed in the evidence, are executed on the real NACK generator interceptor and compared at every tick with a reference on unwrapped sequence numbers. Exhaustive within the bounds; longer histories and other window sizes are not covered.",
    note=TRUST + "pion/rtcp NackPair fields are read directly, the PID/BLP expansion is the harness's own.", ref="DESIGN.md 3/C03"),
+ 'C04': dict(engine='vsched-e2', technique=E2 + "; plus " + E1,
+   text="(1) All send/NACK/Unbind/Rebind/Close histories up to the stated depth over a 20-symbol alphabet (late and out-of-window sends, NACKs at and around both window edges, never-sent numbers, unbound SSRC) for buffer sizes 1, 2, 8 (and 1024), RTX on/off, with three padding forms, are executed on the real ResponderInterceptor and every retransmission is compared byte for byte with the packet as originally sent (or its RFC 4588 form). (2) Every schedule up to preemption bound 2 (quick) / 3-4 (thorough) of a writer evicting ring slots while a NACK for those slots is processed asynchronously, optionally racing UnbindLocalStream, Close or a second NACK, is executed under the race detector with the buffer pool modelled as LIFO (immediate recycling).",
+   note=TRUST + "retransmissions are recognised at the transport as packets written by goroutines the interceptor started; rtcp.Marshal serialises the NACK that is fed to the RTCP reader.", ref="DESIGN.md 3/C04"),
  'C15': dict(engine='vsched-e1', technique=E1,
    text="Every interleaving (all of them for 3 writers x 2 packets: the evidence reports all_interleavings=true; preemption bound 4 for 4 writers) of concurrent writers on two negotiated and one non-negotiated stream of one HeaderExtensionInterceptor is executed for each (extension id, profile, pre-existing extension) configuration, including writers started just below the 2^16 wrap, with uniqueness/consecutiveness/header-preservation checked at the transport and the race detector read after each schedule.",
    note=TRUST + "rtp.Header.GetExtension/DelExtension are used to read headers at the transport.", ref="DESIGN.md 3/C15"),
